@@ -9,8 +9,10 @@ for line in open('/verif/properties.jsonl'):
     if r['id'] == pid:
         rec = r
 assert rec
-wt = f"/tmp/seed/{pid}"
-out = f"/tmp/seed/{pid}-out"
+import os
+base = os.environ.get("SEED_BASE", "/tmp/seed")
+wt = f"{base}/{pid}"
+out = f"{base}/{pid}-out"
 files = ", ".join(rec['anchors']['files'])
 mech = "; ".join(f"{m.get('name')} ({m.get('where')})" for m in rec['anchors']['mechanism'])
 print(f"""You are helping test a verification tool by writing realistic *bugs*. You work ONLY inside the git worktree {wt}
